@@ -72,7 +72,7 @@ class Scale(tuple):
         # Accidentals only work for et scales? Why not a fraction?
         spo = self.tuning._spo
         l = len(self)
-        base_key = (spo * (degree // l)) + self[int(degree) % l]
+        base_key = (spo * (degree // l)) + self.tuning[self[int(degree) % l]]
         if acc == 0:
             return base_key
         else:
@@ -130,7 +130,7 @@ class Tuning(tuple):
     def __init__(self, tuning, octave_ratio=2.0, *, name=None):
         self._octave_ratio = octave_ratio
         self._name = name
-        self._spo = math.log2(octave_ratio) * len(tuning)
+        self._spo = math.log2(octave_ratio) * 12.0  # Tuning values are semitones.
 
     @classmethod
     def from_name(cls, name):  # Was newFromKey.
